@@ -421,8 +421,11 @@ fn exec_net(case: &Value) -> Value {
         has_initial_error: cfg["init_err"].as_bool().unwrap(),
     };
     let random = Arc::new(DefaultRandom::new_repeatable());
-    let mut net: Net = Network::new(&(), data_of(&case["init"]), config, random, |size| CapFactory { cap: size })
-        .expect("cannot create network");
+    // fewer inputs than initial nodes: `Network::new` answers with an error (not a panic)
+    let mut net: Net = match Network::new(&(), data_of(&case["init"]), config, random, |size| CapFactory { cap: size }) {
+        Ok(net) => net,
+        Err(err) => return json!({"err": err.to_string()}),
+    };
     let mut states = vec![dump_net(&net, &BTreeSet::new())];
     for op in case["ops"].as_array().unwrap() {
         let before = keys_of(&net);
